@@ -1,5 +1,5 @@
-//@ fail: E0310|E0477|E0478|~lifetime|E0521|E0277
-//@ what: require_static on an enum variant field holding a branded pointer, with a bound override
+//@ fail: ~lifetime may not live long enough|E0521|E0597|E0716|E0515|~borrowed data escapes
+//@ what: the roots of two arenas exchanged through nested mutate_root callbacks
 #![allow(unused)]
 use gc_arena::{Arena, Collect, Gc, GcWeak, Mutation, Finalization, Rootable, DynamicRootSet, DynamicRoot, Static};
 use gc_arena::lock::{Lock, RefLock, OnceLock};
@@ -25,22 +25,11 @@ fn mk() -> A {
     })
 }
 
-#[cfg(bad)]
-mod m {
-    use super::*;
-    #[derive(Collect)]
-    #[collect(no_drop, bound = "")]
-    pub enum S<'gc> { A(#[collect(require_static)] Gc<'gc, i32>, i32), B { q: Gc<'gc, i32> } }
-    pub fn need<'gc, T: Collect<'gc>>() {}
-    pub fn f<'gc>() { need::<'gc, S<'gc>>() }
+fn main() {
+    let mut a = mk();
+    let mut b = mk();
+    #[cfg(bad)]
+    a.mutate_root(|_mca, ra| b.mutate_root(|_mcb, rb| std::mem::swap(ra, rb)));
+    #[cfg(not(bad))]
+    a.mutate_root(|_mca, ra| b.mutate_root(|mcb, rb| { let _n = *ra.p; rb.p = Gc::new(mcb, 2); }));
 }
-#[cfg(not(bad))]
-mod m {
-    use super::*;
-    #[derive(Collect)]
-    #[collect(no_drop, bound = "")]
-    pub enum S<'gc> { A(#[collect(require_static)] String, i32), B { q: Gc<'gc, i32> } }
-    pub fn need<'gc, T: Collect<'gc>>() {}
-    pub fn f<'gc>() { need::<'gc, S<'gc>>() }
-}
-fn main() {}
